@@ -54,7 +54,7 @@ def regenerate(chk):
                 f.write(out)
             os.replace(tmp, GEN)
             # what was proved about the previous text is void: a failing re-proof is then reported under its own file name
-            for v in ('Proofs/CoordsGen.vo', 'Model/CoordsGenCheck.vo', 'Properties/C01.vo'):
+            for v in ('Proofs/CoordsGen.vo', 'Proofs/CoordsGen2.vo', 'Model/CoordsGenCheck.vo', 'Properties/C01.vo'):
                 try:
                     os.remove(os.path.join(common.COQ, v))
                 except OSError:
